@@ -37,23 +37,24 @@ pub fn run_c14(a: &Args) {
     if let Some(r) = &a.replay { let b = unhex(r); let mut st = Stats::default(); let o = check([b[0], b[1], b[2], b[3], b[4], b[5]], &mut st, &mut areas); if st.failures_total > 0 { println!("FAIL {}", st.failures[0].1); std::process::exit(1) } else { println!("PASS {o}"); return } }
     let mut rng = Rng::new(a.seed);
     let mut st = Stats::default(); let mut out = Out::new(&a.out);
-    let mut ok = 0u64;
+    let mut ok = 0u64; let mut decodable: Vec<[u8; 6]> = vec![];
     // every string of the shape letter letter digit [digit] [letter], NUL-padded (exhaustive)
     for l1 in b'A'..=b'Z' { for l2 in b'A'..=b'Z' { for d1 in b'0'..=b'9' { for d2 in 0..=10u8 { for l3 in 0..=26u8 {
         let mut v = vec![l1, l2, d1]; if d2 > 0 { v.push(b'0' + d2 - 1); } if l3 > 0 { v.push(b'A' + l3 - 1); } v.resize(6, 0);
         let b = [v[0], v[1], v[2], v[3], v[4], v[5]];
         let o = check(b, &mut st, &mut areas); st.evaluations += 1;
-        if o != "E" { ok += 1; out.case(&format!("tread {}", hex(&b)), &o); } else if (l3 + d2 + d1) % 37 == 0 { out.case(&format!("tread {}", hex(&b)), &o); }
+        if o != "E" { ok += 1; decodable.push(b); out.case(&format!("tread {}", hex(&b)), &o); } else if (l3 + d2 + d1) % 37 == 0 { out.case(&format!("tread {}", hex(&b)), &o); }
     } } } } }
     st.exhaustive.push("all 2 007 720 strings letter letter digit [digit] [letter], NUL-padded".into());
     // neighbours of valid codes: lowercase, dirty padding, shifted
     let valid: Vec<[u8; 6]> = crate::layout::TRACKS.iter().map(|c| { let mut v = c.as_bytes().to_vec(); v.resize(6, 0); [v[0], v[1], v[2], v[3], v[4], v[5]] }).collect();
+    let mut valid = valid; for d in &decodable { if !valid.contains(d) { valid.push(*d); } }
     for v in &valid { for i in 0..6 { for x in 0..=255u8 { let mut b = *v; b[i] = x; let o = check(b, &mut st, &mut areas); st.evaluations += 1; out.case(&format!("tread {}", hex(&b)), &o); } } }
     for _ in 0..(if a.thorough() { 10_000_000 } else { 200_000 }) { let r = rng.bytes(6); let b = [r[0], r[1], r[2], r[3], r[4], r[5]]; let o = check(b, &mut st, &mut areas); st.evaluations += 1; if o != "E" { out.case(&format!("tread {}", hex(&b)), &o); } }
     st.add("decodable", ok);
     if ok != 154 { st.fail(format!("[C14] {ok} shaped strings decode, the table has 154 configurations"), "-".into()); }
     st.distinct_nontrivial = ok + 6 * 256 * valid.len() as u64;
-    st.rule = "real Track BinRead/BinWrite/code/is_reverse/is_open/distance/license on every string of the shape letter letter digit[digit][letter] (exhaustive), every single-byte variation of 8 valid codes, random 6-byte values; non-trivial = decodable or a one-byte neighbour of a valid code".into();
+    st.rule = "real Track BinRead/BinWrite/code/is_reverse/is_open/distance/license on every string of the shape letter letter digit[digit][letter] (exhaustive), every single-byte variation (6 positions x 256 values) of every decodable code, random 6-byte values; non-trivial = decodable or a one-byte neighbour of a valid code".into();
     st.sample("tread 424c31520000 -> T 424c3152 (BL1R) flags reverse".into());
     out.finish(&st);
 }
@@ -163,6 +164,52 @@ pub fn run_c15(a: &Args) {
             if res != format!("ok:{}", hex(&lap)) { st.fail(format!("[C15] Lap with time {v} re-encodes as {res}"), format!("frame C {}", hex(&lap))); }
             if i % 256 == 0 { out.case(&format!("rt C {}", hex(&lap)), &res); }
         }
+    }
+    // 4. every time field of every kind (regenerated layouts): a dictionary of wire values - small numbers, whole seconds / minutes /
+    //    hours / days in the field's unit, powers of two and ten and their neighbours, the top of the range - substituted into a
+    //    canonical frame of the kind: the frame must decode and re-encode to the same bytes (both modes)
+    {
+        use crate::{gen::layouts::KINDS, layout::{gen_frame, width, fixed_width, Atom, Tail}};
+        let mut dict: Vec<u64> = (0..=300u64).collect();
+        for k in 1..=7200u64 { dict.push(k * 1000); dict.push(k * 100); }
+        for k in 1..=2880u64 { dict.push(k * 60_000); dict.push(k * 6_000); }
+        for k in 1..=1200u64 { dict.push(k * 3_600_000); dict.push(k * 360_000); }
+        for k in 1..=49u64 { dict.push(k * 86_400_000); dict.push(k * 8_640_000); }
+        for e in 0..=32u32 { let p = 1u64 << e; dict.extend([p.wrapping_sub(1), p, p + 1]); }
+        for e in 0..=9u32 { let p = 10u64.pow(e); dict.extend([p - 1, p, p + 1, 6 * p, 36 * p]); }
+        for d in 0..=64u64 { dict.push(u32::MAX as u64 - d); dict.push(u16::MAX as u64 - d); }
+        dict.sort(); dict.dedup();
+        let mut fields = 0u64;
+        for compressed in [true, false] { for k in KINDS.iter() {
+            let Some((f, _)) = gen_frame(&mut rng, k, compressed, 0, Some(1)) else { continue };
+            // (offset, width) of every duration atom: fixed part, then the first tail element
+            let mut slots: Vec<(usize, usize, String)> = vec![]; let mut off = 2;
+            for (name, at) in k.fixed { if let Atom::Dur { w, .. } = at { slots.push((off, *w, name.to_string())); } off += width(at); }
+            if let Tail::Vec { elt, .. } = k.tail { let mut eo = 2 + fixed_width(k.fixed); for (name, at) in elt { if let Atom::Dur { w, .. } = at { slots.push((eo, *w, format!("[0].{name}"))); } eo += width(at); } }
+            for (o, w, name) in slots {
+                if o + w > f.len() { continue; }
+                fields += 1;
+                for v in dict.iter().filter(|v| **v < (1u64 << (8 * w))) {
+                    let mut g = f.clone(); g[o..o + w].copy_from_slice(&v.to_le_bytes()[..w]);
+                    st.evaluations += 1;
+                    let res = roundtrip("C15", compressed, &g, None, &mut st);
+                    if res != format!("ok:{}", hex(&g)) { st.fail(format!("[C15] {}.{name}: wire value {v} re-encodes as {res}", k.name), format!("frame {} {}", crate::net::mode_tag(compressed), hex(&g))); }
+                }
+                // thorough: the whole 32-bit range of the field, on all cores
+                if a.thorough() && w == 4 && compressed {
+                    let base = f.clone(); let kname = k.name;
+                    let hs: Vec<_> = (0..16u64).map(|t| { let base = base.clone(); std::thread::spawn(move || {
+                        let mut bad: Vec<u32> = vec![]; let lo = t << 28; let hi = (t + 1) << 28; let mut g = base.clone();
+                        for v in lo..hi { g[o..o + 4].copy_from_slice(&(v as u32).to_le_bytes());
+                            let ok = match decode_buf(true, &g) { Dec::Got(p, _) => matches!(encode_p(true, &p), Enc::Ok(e) if e == g), _ => false };
+                            if !ok && bad.len() < 4 { bad.push(v as u32); } }
+                        bad }) }).collect();
+                    for h in hs { for v in h.join().unwrap_or_default() { let mut g = base.clone(); g[o..o + 4].copy_from_slice(&v.to_le_bytes()); st.fail(format!("[C15] {kname}.{name}: wire value {v} does not round-trip"), format!("frame C {}", hex(&g))); } }
+                    st.evaluations += 1u64 << 32; st.exhaustive.push(format!("all 2^32 wire values of {kname}.{name}"));
+                }
+            }
+        } }
+        st.notes.push(format!("time fields swept with the {}-value dictionary: {} (kinds x fields x modes)", dict.len(), fields));
     }
     // Small encode side beyond the range: refused
     for (ms, subt) in [(42_949_672_950u128, 1u8), (42_949_672_960, 1), (42_949_672_959, 1), (4_294_967_295, 7), (4_294_967_296, 7), (u64::MAX as u128, 2)] {
